@@ -51,6 +51,24 @@ def decoder_cases(tier, seed):
                 cases.append({'id': 'd%05d' % i, 'stream': stream, 'segs': segs, 'ops': ops})
                 exps.append((exp, T, stream, fo))
                 i += 1
+    # an item whose multi-byte head / payload straddles a window boundary, with the input cut inside it
+    for k in (1, 2):
+        for w, major in ((2, 0), (4, 0), (8, 0), (4, 1), (2, 2), (4, 2), (2, 4), (8, 5), (4, 6), (8, 7)):
+            for back in range(1, w + 1):           # the item starts `back` bytes before the boundary
+                for have in range(back, w + 1):    # bytes of the item present (1 + w needed) -> always incomplete
+                    start = k * W - back
+                    n = start - 5
+                    segs = [{'hex': cbor.enc_head(2, n, 4).hex()}, {'rep': 'c3', 'n': n}]
+                    if major == 7:
+                        item = bytes([0xe0 | {2: 25, 4: 26, 8: 27}[w]]) + bytes(range(0xa1, 0xa1 + w))
+                    else:
+                        item = cbor.enc_head(major, int.from_bytes(bytes(range(0xa1, 0xa1 + w)), 'big') if major in (0, 1, 6) else 3, w)
+                    segs.append({'hex': item[:have].hex()})
+                    fo = {0: 'u', 1: 'n', 2: 'bs', 4: 'arr', 5: 'map', 6: 'skip', 7: 'skip'}[major]
+                    for op1 in (fo, 'skip'):
+                        cases.append({'id': 'd%05d' % i, 'stream': 'sstream' if i % 2 else 'ifstream', 'segs': segs, 'ops': ['skip', op1, 'peek']})
+                        exps.append((['ok', END, END], start + have, 'straddle', op1))
+                        i += 1
     # streams that cannot be read: never opened, missing file, a directory
     for fo in FIRST_OPS:
         for stream, extra in (('unopened', {}), ('ifstream', {'path': '/nonexistent/verif/input'}), ('ifstream', {'path': '/tmp'})):
